@@ -528,7 +528,7 @@ def valid_request(route, method, version, view, rng):
     """a request that is valid (or nearly: it may conflict with the state) for (route, method) at `version`"""
     path, pu = path_for(route, view, rng)
     req = {'method': method, 'path': path, 'query': valid_query(route, method, version, view, rng),
-           'headers': {'x-auth-token': 'admin', 'accept': 'application/json',
+           'headers': {'x-auth-token': 'admin', 'x-roles': 'admin,service', 'accept': 'application/json',
                        'openstack-api-version': 'placement %d.%d' % version},
            'body': None, 'doc': None, 'schema': None}
     sn, schema = schema_for(route, method, 'body', version)
@@ -771,7 +771,7 @@ def malform(req, route, method, view, rng):
     if req['doc'] is not None and isinstance(req['doc'], dict):
         doc = req['doc']
         k = 'sem:none'
-        if 'resource_provider_generation' in doc:
+        if isinstance(doc.get('resource_provider_generation'), int):
             doc['resource_provider_generation'] = rng.choice([doc['resource_provider_generation'] + 1, 0, 99, 2 ** 63, 2 ** 64])
             k = 'sem:stale-generation'
         elif 'consumer_generation' in doc:
@@ -937,9 +937,10 @@ def _deep(n):
     return b'[' * n + b']' * n
 
 
-_NAN_INV = b'{"resource_provider_generation": 0, "total": 4, "allocation_ratio": NaN}'
-_NINF_INV = b'{"resource_provider_generation": 0, "total": 4, "allocation_ratio": -Infinity}'
+_NAN_INV = b'{"resource_provider_generation": @GEN@, "total": 4, "allocation_ratio": NaN}'
+_NINF_INV = b'{"resource_provider_generation": @GEN@, "total": 4, "allocation_ratio": -Infinity}'
 
+# `@GEN@` in a body stands for the current generation of provider RP[1].
 # (state, method, path?query, version, body, "route template|label"): requests of the listed findings (DESIGN §9 E, F, J
 # and those this check found) and regression probes; run first by worker 0 through the same monitors.
 CORPUS = [
@@ -952,23 +953,23 @@ CORPUS = [
     ('basic', 'POST', '/resource_providers/%s/inventories' % RP[1], '1.39',
      b'{"resource_class": "DISK_GB", "total": 4, "allocation_ratio": -1e400}', '/resource_providers/{uuid}/inventories|E-neginf-ratio'),
     ('basic', 'PUT', '/resource_providers/%s/inventories' % RP[1], '1.39',
-     b'{"resource_provider_generation": 0, "inventories": {"DISK_GB": {"total": 4, "allocation_ratio": NaN}}}',
+     b'{"resource_provider_generation": @GEN@, "inventories": {"DISK_GB": {"total": 4, "allocation_ratio": NaN}}}',
      '/resource_providers/{uuid}/inventories|E-nan-ratio'),
     ('basic', 'PUT', '/resource_providers/%s/inventories' % RP[1], '1.39',
-     b'{"resource_provider_generation": 0, "inventories": {"DISK_GB": {"total": 4, "allocation_ratio": -Infinity}}}',
+     b'{"resource_provider_generation": @GEN@, "inventories": {"DISK_GB": {"total": 4, "allocation_ratio": -Infinity}}}',
      '/resource_providers/{uuid}/inventories|E-neginf-ratio'),
     ('basic', 'PUT', '/resource_providers/%s/inventories' % RP[1], '1.39',
-     b'{"resource_provider_generation": 0, "inventories": {"vcpu": 5}}', '/resource_providers/{uuid}/inventories|F-key-int'),
+     b'{"resource_provider_generation": @GEN@, "inventories": {"vcpu": 5}}', '/resource_providers/{uuid}/inventories|F-key-int'),
     ('basic', 'PUT', '/resource_providers/%s/inventories' % RP[1], '1.39',
-     b'{"resource_provider_generation": 0, "inventories": {"vcpu": {"total": "x"}}}',
+     b'{"resource_provider_generation": @GEN@, "inventories": {"vcpu": {"total": "x"}}}',
      '/resource_providers/{uuid}/inventories|F-key-record'),
     ('basic', 'PUT', '/resource_providers/%s/inventories' % RP[1], '1.39',
-     b'{"resource_provider_generation": 0, "inventories": {"vcpu": "ab"}}', '/resource_providers/{uuid}/inventories|F-key-str'),
+     b'{"resource_provider_generation": @GEN@, "inventories": {"vcpu": "ab"}}', '/resource_providers/{uuid}/inventories|F-key-str'),
     ('basic', 'POST', '/reshaper', '1.39',
-     ('{"inventories": {"%s": {"resource_provider_generation": 0, "inventories": {"vcpu": 5}}}, "allocations": {}}' % RP[1]).encode(),
+     ('{"inventories": {"%s": {"resource_provider_generation": @GEN@, "inventories": {"vcpu": 5}}}, "allocations": {}}' % RP[1]).encode(),
      '/reshaper|F-key-int'),
     ('basic', 'POST', '/reshaper', '1.39',
-     ('{"inventories": {"%s": {"resource_provider_generation": 0, "inventories": {"VCPU": {"total": 4, "allocation_ratio": NaN}}}},'
+     ('{"inventories": {"%s": {"resource_provider_generation": @GEN@, "inventories": {"VCPU": {"total": 4, "allocation_ratio": NaN}}}},'
       ' "allocations": {}}' % RP[1]).encode(), '/reshaper|E-nan-ratio'),
     ('empty', 'POST', '/resource_classes', '1.39', b'{"name": "CUSTOM_X\\n"}', '/resource_classes|J-trailing-newline'),
     ('empty', 'PUT', '/traits/CUSTOM_T%0A', '1.39', None, '/traits/{name}|J-trailing-newline'),
@@ -979,6 +980,57 @@ CORPUS = [
     ('empty', 'POST', '/resource_providers', '1.39', _deep(100000), '/resource_providers|deep-nesting'),
     ('basic', 'PUT', '/resource_providers/%s/traits' % RP[1], '1.39', _deep(1100), '/resource_providers/{uuid}/traits|deep-nesting'),
 ]
+
+
+def _walk(doc, depth=0):
+    if depth > 50:
+        return
+    if isinstance(doc, dict):
+        for k, v in doc.items():
+            yield k, v
+            for x in _walk(v, depth + 1):
+                yield x
+    elif isinstance(doc, list):
+        for v in doc:
+            for x in _walk(v, depth + 1):
+                yield x
+
+
+def causes_of(req, route):
+    """Recognised kinds of malformation that the listed findings are about, read off the request itself
+    (used only to name a 5xx precisely; [] = none recognised)."""
+    out = set()
+    body = req.get('body')
+    doc = None
+    if body is not None:
+        try:
+            from oslo_serialization import jsonutils
+            doc = jsonutils.loads(body)
+        except RecursionError:
+            out.add('deeply-nested-json')
+        except Exception:
+            doc = None
+    if doc is not None:
+        try:
+            for k, v in _walk(doc):
+                if k == 'allocation_ratio' and isinstance(v, float) and (v != v or v in (D.INF, -D.INF)):
+                    out.add('non-finite-allocation_ratio')
+                if k == 'inventories' and isinstance(v, dict) and route != '/reshaper' or \
+                        (route == '/reshaper' and k == 'inventories' and isinstance(v, dict) and doc.get('inventories') is not v):
+                    if any(not re.search('^[A-Z0-9_]+$', kk) for kk in v):
+                        out.add('unvalidated-inventories-key')
+                if k == 'name' and isinstance(v, str) and v.endswith('\n') and route.startswith('/resource_classes'):
+                    out.add('name-with-trailing-newline')
+        except RecursionError:
+            out.add('deeply-nested-json')
+    for k, v in req.get('query') or []:
+        if isinstance(v, bytes):
+            try:
+                import urllib.parse
+                urllib.parse.unquote_to_bytes(v).decode('utf-8')
+            except UnicodeDecodeError:
+                out.add('query-not-utf8')
+    return sorted(out)
 
 
 def worker(args):
@@ -1029,7 +1081,10 @@ def worker(args):
         if status >= 500:
             cls, site, msg = _captured[-1] if _captured else ('?', '?', body[:200].decode('latin-1'))
             tally('error_kinds', '%d %s@%s' % (status, cls, site))
-            sig = 'c15:5xx:%s %s:%s@%s' % (req['method'], route, cls, site)
+            cz = causes_of(req, route)
+            if cls == 'RecursionError' and 'deeply-nested-json' not in cz:
+                cz = sorted(cz + ['deeply-nested-json'])
+            sig = 'c15:5xx:%s %s:%s' % (req['method'], route, '+'.join(cz) if cz else '%s@%s' % (cls, site))
             violation('monitor', sig, '%d: %s: %s' % (status, cls, msg),
                       replay_obj(sname, req, route, kinds, '%d %s at %s: %s' % (status, cls, site, msg), '4xx'))
         # ---- monitor: error body
@@ -1106,13 +1161,17 @@ def worker(args):
             path, _, q = pq.partition('?')
             req = {'method': method, 'path': path,
                    'query': [(k, v.encode('latin-1')) for k, _, v in (kv.partition('=') for kv in q.split('&'))] if q else [],
-                   'headers': {'x-auth-token': 'admin', 'accept': 'application/json',
+                   'headers': {'x-auth-token': 'admin', 'x-roles': 'admin,service', 'accept': 'application/json',
                                'openstack-api-version': 'placement %s' % ver}, 'body': cbody, 'doc': None, 'schema': None}
             if cbody is not None:
+                req['body'] = cbody.replace(b'@GEN@', str(cur['rps'].get(RP[1], {}).get('gen', 0)).encode())
                 req['headers']['content-type'] = 'application/json'
             route = label.split('|')[0]
+            before = dict(res['tallies'].get('by_status', {}))
             run_one(sname, req, route, ['corpus:' + label.split('|')[1]], tuple(int(x) for x in ver.split('.')), cur)
-            tally('corpus', label)
+            after = res['tallies'].get('by_status', {})
+            st = [k for k in after if after[k] != before.get(k, 0)]
+            tally('corpus', '%s %s -> %s' % (method, label, ','.join(st)))
     per_state = max(1, n_requests // len(state_names))
     for sname in state_names:
         snap = build_state(app, sname)
@@ -1125,7 +1184,11 @@ def worker(args):
                 since_reset = 0
             since_reset += 1
             view = View(cur)
-            req, route, kinds, version = gen_request(view, rng, rt)
+            try:
+                req, route, kinds, version = gen_request(view, rng, rt)
+            except Exception as e:      # a bug of the generator must not end the run
+                tally('generator_errors', type(e).__name__)
+                continue
             cur = run_one(sname, req, route, kinds, version, cur)
             if state['broken']:
                 state['broken'] = False
